@@ -60,7 +60,7 @@ pub fn run(seed: u64, thorough: bool) {
         shapes.push(Shape { hash: "sha256_256", levels: vec![(3, 5), (2, 1)] });
         shapes.push(Shape { hash: "shake256_192", levels: vec![(3, 1), (2, 5), (3, 1)] });
     }
-    for shape in &shapes {
+    for (shape_index, shape) in shapes.iter().enumerate() {
         let n = shape.n();
         let th = shape.total_height();
         let total = 1u64 << th;
@@ -87,7 +87,11 @@ pub fn run(seed: u64, thorough: bool) {
         let mut step = 0usize;
         while step < max_steps {
             step += 1;
-            let r = rng.below(100);
+            let mut r = rng.below(100);
+            if released + 1 == total {
+                // the signature that uses the last leaf: alternate the entry point per shape
+                r = if shape_index % 2 == 1 { 60 } else { 10 };
+            }
             let msg = rng.bytes((r % 7) as usize * 9);
             let before = persisted.clone();
             if r < 55 || r >= 85 {
